@@ -258,8 +258,14 @@ impl CanonicalRequest {
                         pq.push_str(&qs);
                     }
 
-                    parts.uri =
-                        Uri::builder().path_and_query(pq).build().expect("failed to rebuild URI with new query string");
+                    // The rebuilt URI can exceed what the http crate accepts (64 KiB) when a large form body is folded into
+                    // it; report that as a malformed request instead of panicking.
+                    parts.uri = Uri::builder().path_and_query(pq).build().map_err(|e| {
+                        SignatureError::MalformedQueryString(format!(
+                            "Failed to rebuild URI with application/x-www-form-urlencoded body parameters: {}",
+                            e
+                        ))
+                    })?;
                     body = Bytes::from("");
                 }
             }
